@@ -13,7 +13,35 @@ import (
 // bubble, so the real ones would stall the scheduler). Outside scheduled
 // runs they behave like the originals.
 
-var siteLock = ^uint32(0) - 1
+var (
+	siteLock = ^uint32(0) - 1
+	siteSync = ^uint32(0) - 2
+)
+
+// syncYield makes every intercepted synchronisation operation (lock,
+// unlock, pool get/put, once) a scheduling point of its own, whatever the
+// run's set of active sites: what another task does between a Put and the
+// statement after it is exactly what these primitives are about. Budgeted per
+// task like any site.
+func syncYield() {
+	if mode.Load() != modeSched {
+		return
+	}
+	s := cur.Load()
+	if s == nil {
+		return
+	}
+	t := s.find(Goid())
+	if t == nil {
+		return
+	}
+	h := t.syncHits
+	t.syncHits = h + 1
+	if h >= 64 && h&(h-1) != 0 {
+		return
+	}
+	t.park(siteSync)
+}
 
 func lockWait() {
 	if mode.Load() == modeSched {
@@ -30,27 +58,30 @@ func lockWait() {
 type Mutex struct{ m sync.Mutex }
 
 func (m *Mutex) Lock() {
+	syncYield()
 	for !m.m.TryLock() {
 		lockWait()
 	}
 }
-func (m *Mutex) Unlock()       { m.m.Unlock() }
+func (m *Mutex) Unlock()       { m.m.Unlock(); syncYield() }
 func (m *Mutex) TryLock() bool { return m.m.TryLock() }
 
 type RWMutex struct{ m sync.RWMutex }
 
 func (m *RWMutex) Lock() {
+	syncYield()
 	for !m.m.TryLock() {
 		lockWait()
 	}
 }
-func (m *RWMutex) Unlock() { m.m.Unlock() }
+func (m *RWMutex) Unlock() { m.m.Unlock(); syncYield() }
 func (m *RWMutex) RLock() {
+	syncYield()
 	for !m.m.TryRLock() {
 		lockWait()
 	}
 }
-func (m *RWMutex) RUnlock()       { m.m.RUnlock() }
+func (m *RWMutex) RUnlock()       { m.m.RUnlock(); syncYield() }
 func (m *RWMutex) TryLock() bool  { return m.m.TryLock() }
 func (m *RWMutex) TryRLock() bool { return m.m.TryRLock() }
 func (m *RWMutex) RLocker() sync.Locker {
@@ -68,6 +99,7 @@ type Once struct {
 }
 
 func (o *Once) Do(f func()) {
+	syncYield()
 	if o.done.Load() {
 		return
 	}
@@ -77,4 +109,55 @@ func (o *Once) Do(f func()) {
 		defer o.done.Store(true)
 		f()
 	}
+}
+
+// Pool replaces sync.Pool in woven code. The real pool hands objects out per
+// P, which is both an uncontrolled source of nondeterminism and a way for two
+// goroutines to end up with one object; in a scheduled run the simulated pool
+// is one LIFO shared by all tasks (an object is available to every task the
+// moment it is put back) and Get/Put are scheduling points. Outside scheduled
+// runs it is the real thing.
+type Pool struct {
+	New  func() any
+	real sync.Pool
+	mu   sync.Mutex
+	free []any
+}
+
+func (p *Pool) Get() any {
+	if mode.Load() != modeSched {
+		if x := p.real.Get(); x != nil {
+			return x
+		}
+		if p.New != nil {
+			return p.New()
+		}
+		return nil
+	}
+	syncYield()
+	p.mu.Lock()
+	var x any
+	if n := len(p.free); n > 0 {
+		x = p.free[n-1]
+		p.free = p.free[:n-1]
+	}
+	p.mu.Unlock()
+	if x == nil && p.New != nil {
+		x = p.New()
+	}
+	return x
+}
+
+func (p *Pool) Put(x any) {
+	if x == nil {
+		return
+	}
+	if mode.Load() != modeSched {
+		p.real.Put(x)
+		return
+	}
+	p.mu.Lock()
+	p.free = append(p.free, x)
+	p.mu.Unlock()
+	syncYield()
 }
